@@ -148,3 +148,26 @@ class Ctx:
             self.pid, self.tier, self.seed, self.states, self.traces, self.evaluations, wall,
             len(self.violations), len(self.known_hit)))
         return 1 if self.violations else 0
+
+
+class Timeout(Exception):
+    pass
+
+
+class time_limit:
+    """SIGALRM based watchdog for calls into the code under test (a hang is reported as a violation)."""
+    def __init__(self, seconds):
+        self.s = seconds
+
+    def __enter__(self):
+        import signal
+        def h(sig, frm):
+            raise Timeout("no result within %ss" % self.s)
+        self.old = signal.signal(signal.SIGALRM, h)
+        signal.alarm(self.s)
+
+    def __exit__(self, *a):
+        import signal
+        signal.alarm(0)
+        signal.signal(signal.SIGALRM, self.old)
+        return False
